@@ -123,7 +123,7 @@ var active atomic.Pointer[Run]
 func NewRun(seed uint64) *Run {
 	return &Run{Seed: seed, r: newRng(seed), digest: 14695981039346656037, sitePol: map[string]int{}, DefPol: -1,
 		NonCanon: map[string]int{}, MultiKey: map[string]int{}, Probes: map[string]int{},
-		MaxSteps: 50_000_000, MaxKeys: 5_000_000}
+		MaxSteps: 20_000_000, MaxKeys: 5_000_000}
 }
 
 // NewReplay creates a run served from a recorded draw log.
